@@ -212,7 +212,7 @@ pub fn check(c: &mut Case, k: Kind, texs: &[Tex], shuffle: bool, all_prefixes: b
     c.eval(k_eval);
 }
 
-pub const REQUIRED: &[&str] = &["container_Ctpk", "container_Bch", "container_BchNew", "container_Cgfx", "container_Tpl", "zero_textures", "shuffled_placement", "wrong_magic", "prefixes", "prefix_cutting_a_payload", "all_prefixes", "large_dimensions"];
+pub const REQUIRED: &[&str] = &["container_Ctpk", "container_Bch", "container_BchNew", "container_Cgfx", "container_Tpl", "zero_textures", "shuffled_placement", "wrong_magic", "prefixes", "prefix_cutting_a_payload", "all_prefixes", "large_dimensions", "two_textures_share_one_payload"];
 
 pub fn run(cx: &mut Ctx) {
     cx.require(REQUIRED);
@@ -270,7 +270,28 @@ pub fn run(cx: &mut Ctx) {
             let mut rng = c.rng.clone();
             let k = *rng.pick(&KINDS);
             let nt = if miri { rng.range(0, 2) } else { rng.range(0, 6) };
-            let texs: Vec<Tex> = (0..nt).map(|_| gen_tex(&mut rng, k, miri)).collect();
+            let mut texs: Vec<Tex> = (0..nt).map(|_| gen_tex(&mut rng, k, miri)).collect();
+            // twins: the same payload bytes referenced by two textures of different format
+            if k != Kind::Tpl && !texs.is_empty() && rng.chance(1, 5) {
+                let src = rng.below(texs.len());
+                let twin_fmt = |f: u32| match f {
+                    7 => Some(8u32),  // L8 <-> A8
+                    8 => Some(7),
+                    2 => Some(3),     // RGBA5551 <-> RGB565 <-> RGBA4 <-> LA8 (all 2 bytes per pixel)
+                    3 => Some(4),
+                    4 => Some(5),
+                    5 => Some(2),
+                    _ => None,
+                };
+                if let Some(f2) = twin_fmt(texs[src].format) {
+                    let mut t = texs[src].clone();
+                    t.format = f2;
+                    t.name = format!("{}_twin", t.name);
+                    let at = rng.below(texs.len() + 1);
+                    texs.insert(at, t);
+                    c.sit("two_textures_share_one_payload");
+                }
+            }
             let shuffle = rng.chance(2, 3);
             c.rng = rng;
             check(c, k, &texs, shuffle, i % 97 == 0 && !miri);
